@@ -74,7 +74,14 @@ pub fn any_usize() -> usize {
     usize::from_le_bytes(pop(std::mem::size_of::<usize>()).try_into().unwrap())
 }
 pub fn any_bytes<const N: usize>() -> [u8; N] {
-    pop(N).try_into().unwrap()
+    // Kani's Arbitrary for [u8; N] draws the elements one by one
+    let mut a = [0u8; N];
+    let mut i = 0;
+    while i < N {
+        a[i] = pop(1)[0];
+        i += 1;
+    }
+    a
 }
 pub fn assume(c: bool) {
     if !c {
